@@ -34,6 +34,23 @@ fn gcase_strategy(p: GenParams, lr: bool) -> BoxedStrategy<GCase> {
         .boxed()
 }
 
+/// as `gcase_strategy`, decorated with lookahead variants of a terminal text (same text and kind,
+/// other lookahead expression: different terminals) and AST-control attributes on occurrences
+fn gcase_strategy_deco(p: GenParams) -> BoxedStrategy<GCase> {
+    (tape(30..120), tape(30..90), tape(30..60))
+        .prop_map(move |(gt, tp, dt)| {
+            let mut t = chart::Tape { data: &gt, pos: 0 };
+            let mut grammar = gens::grammar(&mut t, &p);
+            let mut d = chart::Tape { data: &dt, pos: 0 };
+            gens::lookahead_variants(&mut grammar, &mut d);
+            if d.next(2) == 1 {
+                gens::ast_annotate(&mut grammar, &mut d);
+            }
+            GCase { grammar, tape: tp }
+        })
+        .boxed()
+}
+
 fn show(w: &[u8], terms: &[Term]) -> String {
     w.iter().map(|t| terms.get(*t as usize).map(|x| x.lit.text.clone()).unwrap_or("?".into())).collect::<Vec<_>>().join(" ")
 }
@@ -180,7 +197,7 @@ impl Check for C10 {
         "C10"
     }
     fn rule(&self) -> String {
-        "case = random grammar over 2-4 terminals without LL bias (many shared prefixes of length 1-4, duplicate alternatives, several prefix groups per non-terminal; plain BNF and canonicalized EBNF; helper-looking names like XSuffix, XSuffix0 in use), its Cfg (as parol reads it) passed to the public left_factor; oracle: call returns (no panic, output <= 6x input productions + 16), language up to length 6 and of random longer derivations is unchanged (also per original non-terminal), no non-terminal keeps two non-empty alternatives starting with the same symbol, introduced names are not names used by the input. Evaluations = grammars factored. Non-trivial = factoring changed the grammar; distinct by grammar text".into()
+        "case = random grammar over 2-4 terminals without LL bias (many shared prefixes of length 1-4, duplicate alternatives, several prefix groups per non-terminal; plain BNF and canonicalized EBNF; helper-looking names like XSuffix, XSuffix0 in use; a quarter of the cases with lookahead variants of one terminal text - equal text, other lookahead expression - and clipping / member names / user types on occurrences), its Cfg (as parol reads it) passed to the public left_factor; oracle: call returns (no panic, output <= 6x input productions + 16), language up to length 6 and of random longer derivations is unchanged (also per original non-terminal), no non-terminal keeps two non-empty alternatives starting with the same symbol, introduced names are not names used by the input. Evaluations = grammars factored. Non-trivial = factoring changed the grammar; distinct by grammar text".into()
     }
     fn strategy(&self, tier: Tier) -> BoxedStrategy<GCase> {
         let mut p = GenParams::ll();
@@ -196,7 +213,7 @@ impl Check for C10 {
         q.max_alts = 3;
         let mut r = p.clone();
         r.left_rec = true;
-        proptest::strategy::Union::new(vec![gcase_strategy(p, false), gcase_strategy(q, false), gcase_strategy(r, false)]).boxed()
+        proptest::strategy::Union::new(vec![gcase_strategy(p.clone(), false), gcase_strategy(q, false), gcase_strategy(r, false), gcase_strategy_deco(p)]).boxed()
     }
     fn cases(&self, tier: Tier) -> u32 {
         tier.pick(80000, 1000000)
